@@ -110,7 +110,10 @@ def run_property(pid, module, tier="quick", replay=None, repo="/repo", facts_ove
             errors.append("extract[%s]: %s" % (cfg, e))
             continue
         stats[cfg] = {"bodies": len(facts.bodies),
-                      "call_sites": sum(1 for b in facts.bodies for _ in b.calls(cleanup=True))}
+                      "call_sites": sum(1 for b in facts.bodies for _ in b.calls(cleanup=True)),
+                      "renamed_functions_resolved_by_fingerprint": dict(getattr(facts, "renames", {}) or {})}
+        for new_, old_ in sorted((getattr(facts, "renames", {}) or {}).items()):
+            print("note[%s]: function %s recognised as the renamed/moved %s (fingerprint match); rules anchored on the old path apply to it" % (cfg, new_, old_))
         ctx = Ctx(facts, cfg, tier, repo)
         for (rid, fn, floor, capi_only) in module.RULES:
             if cfg == "default" and capi_only:
